@@ -293,6 +293,9 @@ class Eval:
         """a + b; counter overflow out of the S field is an explicit assumption (never happens)"""
         if a.raw is not None and b.raw is not None:
             return self.const(a.raw + b.raw)
+        d = self.flag_minus_units(b.raw) if a.raw is None else None
+        if d is not None:
+            return self.sub(self.add(a, self.const(d[0])), self.const(d[1]))
         if b.raw is not None and b.raw >= (1 << 63) and not _neg:
             # adding a two's complement: subtract the magnitude instead
             return self.sub(a, self.const((1 << 64) - b.raw), _neg=True)
@@ -322,9 +325,23 @@ class Eval:
         x = (a.x + b.x + c) & 1
         return W(x, six, s, rest)
 
+    def flag_minus_units(self, k):
+        """k = F - j * unit with F a flag bit (SIX or X) and j a small count: (F, j), else None.  Such a constant exchanges a flag
+        for j shared grants in one addition / subtraction (w - (kSIXLock - kSLock) clears SIX and adds one to the count)."""
+        if k is None or k <= 0:
+            return None
+        for fb in (self.L.sixbit, self.L.xbit):
+            for j in (1, 2, 3):
+                if k + (j << self.L.ubit) == (1 << fb):
+                    return (1 << fb, j << self.L.ubit)
+        return None
+
     def sub(self, a, b, _neg=False):
         if a.raw is not None and b.raw is not None:
             return self.const(a.raw - b.raw)
+        d = self.flag_minus_units(b.raw) if a.raw is None else None
+        if d is not None:
+            return self.add(self.sub(a, self.const(d[0])), self.const(d[1]))
         if b.raw is not None and b.raw >= (1 << 63) and not _neg:
             return self.add(a, self.const((1 << 64) - b.raw), _neg=True)
         if b.rest is not None and b.rest[0] == 'c' and b.rest[1] != 0 and a.rest is not None and a.rest[0] == 'other' \
